@@ -1281,37 +1281,7 @@ impl QueryPlan {
             }
             Func2(Like, ref expr, ref pattern) => match pattern {
                 box Const(RawVal::Str(pattern)) => {
-                    let mut pattern = pattern.to_string();
-                    pattern = regex::escape(&pattern);
-                    pattern = Regex::new(r"([^\\])_")
-                        .unwrap()
-                        .replace_all(&pattern, "$1.")
-                        .to_string();
-                    pattern = Regex::new(r"\\_")
-                        .unwrap()
-                        .replace_all(&pattern, "_")
-                        .to_string();
-                    while pattern.contains("%%%%") {
-                        pattern = pattern.replace("%%%%", "%%");
-                    }
-                    pattern = pattern.replace("%%%", "(%.*)|(.*%)");
-                    pattern = Regex::new(r"([^%])%([^%])")
-                        .unwrap()
-                        .replace_all(&pattern, "$1.*$2")
-                        .to_string();
-                    pattern = Regex::new(r"^%([^%])")
-                        .unwrap()
-                        .replace_all(&pattern, ".*$1")
-                        .to_string();
-                    pattern = Regex::new(r"([^%])%$")
-                        .unwrap()
-                        .replace_all(&pattern, "$1.*")
-                        .to_string();
-                    pattern = Regex::new(r"%%")
-                        .unwrap()
-                        .replace_all(&pattern, "%")
-                        .to_string();
-                    pattern = format!("^{}$", pattern);
+                    let pattern = like_to_regex(pattern);
                     let (mut plan, t) =
                         QueryPlan::compile_expr(expr, filter, columns, column_len, planner)?;
                     if t.decoded != BasicType::String {
@@ -2403,6 +2373,34 @@ pub(super) fn prepare<'a>(
     };
     result.push(operation);
     Ok(result.last_buffer())
+}
+
+/// Translates a LIKE pattern into an anchored regex.
+/// `%` matches any sequence of characters and `_` any single character;
+/// `%%` is a literal percent sign and `\_` a literal underscore.
+fn like_to_regex(pattern: &str) -> String {
+    let mut regex = String::from("(?s)^");
+    let mut chars = pattern.chars().peekable();
+    while let Some(c) = chars.next() {
+        match c {
+            '%' => {
+                if chars.peek() == Some(&'%') {
+                    chars.next();
+                    regex.push('%');
+                } else {
+                    regex.push_str(".*");
+                }
+            }
+            '_' => regex.push('.'),
+            '\\' if chars.peek() == Some(&'_') => {
+                chars.next();
+                regex.push('_');
+            }
+            c => regex.push_str(&regex::escape(&c.to_string())),
+        }
+    }
+    regex.push('$');
+    regex
 }
 
 /// How a string constant that is missing from a sorted dictionary has to be encoded so that comparing dictionary
